@@ -161,7 +161,7 @@ impl Check for C12 {
             .into()
     }
     fn budget(t: Tier) -> usize {
-        t.pick(1500, 50_000)
+        t.pick(6000, 200_000)
     }
     fn preflight() -> Result<(), String> {
         crate::preflight::decoder_preflight()
@@ -171,12 +171,9 @@ impl Check for C12 {
         let mut out = Vec::new();
         for w in 0..=64u32 {
             let variants = range_variants(w);
-            let variants: Vec<_> = if t == Tier::Quick { variants.into_iter().step_by(2).collect() } else { variants };
+            
             for (vi, (min, max)) in variants.iter().enumerate() {
                 for mode in 0..3u64 {
-                    if t == Tier::Quick && (vi as u64 + mode) % 2 == 1 {
-                        continue;
-                    }
                     let vals = value_set(*min, *max, n, if mode == 2 { 17 + w as u64 } else { mode });
                     let len = (n * w as usize + 7) / 8;
                     for cut in 0..=len {
@@ -186,9 +183,9 @@ impl Check for C12 {
             }
         }
         // writer direction: each width with a companion width, around the packet capacity
-        let widths: Vec<u32> = if t == Tier::Quick { (0..=64).step_by(3).collect() } else { (0..=64).collect() };
+        let widths: Vec<u32> = (0..=64).collect();
         for (k, w) in widths.iter().enumerate() {
-            let comps: Vec<Option<u32>> = if t == Tier::Quick { vec![[None, Some(3), Some(13)][k % 3]] } else { vec![None, Some(1), Some(7), Some(33)] };
+            let comps: Vec<Option<u32>> = if t == Tier::Quick { vec![[None, Some(3), Some(13)][k % 3], Some(7)] } else { vec![None, Some(1), Some(7), Some(33)] };
             for c in comps {
                 let mut ranges = vec![range_variants(*w)[k % range_variants(*w).len()]];
                 if let Some(c) = c {
